@@ -19,7 +19,7 @@ PID = "C13"
 LEVEL = "exploration"
 TECHNIQUE = ("runtime monitoring: the real discovery functions are run on generated datasets and judged by an "
              "independent brute-force definition of 'no data at this location'; find->harvest->find loops on real Harvesters")
-RULE = ("seeded datasets (1-4 parameter dims of size 1-4, numeric and str coordinates, 1-3 variables on subsets of the "
+RULE = ("seeded datasets (1-4 parameter dims of size 1-4 named a-d or like keyword options of xarray (tolerance, drop, method), numeric and str coordinates, 1-3 variables on subsets of the "
         "dims with or without an internal dim, null patterns whole-cell / partial-cell / per-variable / none / all, inf "
         "values) x both null criteria x ignore_dims spellings (None, str, list, set) x Dataset/DataArray inputs; "
         "parse_into_cases with combos/cases incl. absent coordinates and partial locations; find->harvest->find loops; "
